@@ -200,7 +200,8 @@ def strip_markers(trace):
 
 def lock_prog(trace, tid):
     """the lock operations thread `tid` performed, in order"""
-    return [Sym("prog")] + [ev for t, ev in trace if t == tid and ev in ("acqP", "relP", "acqR", "relR")]
+    return [Sym("prog")] + [ev for t, ev in trace if t == tid and isinstance(ev, str) and not isinstance(ev, list)
+                            and ev[:3] in ("acq", "rel")]
 
 
 class NestedCase:
